@@ -540,3 +540,102 @@ Definition apply_call (live : option json) (c : call) : option json :=
   | CPatch _, None => None
   | CDelete, _ => None
   end.
+
+(* ------------------------------------------------------------------ *)
+(* vocabulary of the property statements (C05 / C04)                   *)
+(* ------------------------------------------------------------------ *)
+
+Definition is_container (j : json) : bool :=
+  match j with JList _ | JMap _ => true | _ => false end.
+
+(* "the same leaf value": Python == on scalars, except that a bool is only
+   the same as the same bool (1 vs 1.0 is the same value; 1 vs true is not) *)
+Definition leaf_same (t v : json) : bool :=
+  match t, v with
+  | JBool x, JBool y => Bool.eqb x y
+  | JBool _, _ => false
+  | _, JBool _ => false
+  | _, _ => py_eq t v
+  end.
+
+(* the directives of a target map, when they are well-formed enough to be read *)
+Definition dirs_of (tk : list (string * json))
+  : option (list string * list string * list (string * list json)) :=
+  match key_set (lookup K_SET tk), key_set (lookup K_LA tk), map_cfg (lookup K_MAP tk) with
+  | Ret sk, Ret lk, Ret cfg => Some (sk, lk, cfg)
+  | _, _, _ => None
+  end.
+
+(* a key of a target map whose value the comparison looks at in the live
+   object: not a directive, not ownerReferences, not compared against
+   last-applied *)
+Definition specified_key (lk : list string) (k : string) : bool :=
+  negb (is_directive k) && negb (String.eqb k K_OWNERS) && negb (mem_str k lk).
+
+Fixpoint list_set {A} (i : nat) (v : A) (l : list A) : list A :=
+  match l, i with
+  | [], _ => []
+  | _ :: r, O => v :: r
+  | x :: r, S j => x :: list_set j v r
+  end.
+
+Inductive step := SKey (k : string) | SIdx (i : nat).
+
+(* [deviates t s p l l']: the live object l' is l except at the
+   target-specified path p, where it differs from what target t specifies
+   ([s]: t is compared as a set).  Below a compare-as-map key the path
+   continues in the keyed view (_list_to_object) of the list. *)
+Inductive deviates : json -> bool -> list step -> json -> json -> Prop :=
+| dev_leaf t s l l' :                      (* changed / retyped leaf, leaf turned null or container *)
+    is_container t = false -> leaf_same t l' = false -> deviates t s [] l l'
+| dev_map_retyped tk s l l' :              (* a map replaced by a non-map *)
+    (forall ak, l' <> JMap ak) -> deviates (JMap tk) s [] l l'
+| dev_list_retyped tl s l l' :             (* a list replaced by a non-list *)
+    (forall al, l' <> JList al) -> deviates (JList tl) s [] l l'
+| dev_list_length tl l al' :               (* an ordered list of different length *)
+    List.length al' <> List.length tl -> deviates (JList tl) false [] l (JList al')
+| dev_set_lost tl l al' x :                (* a set-directed list lost a member *)
+    In x tl -> set_mem x al' = false -> deviates (JList tl) true [] l (JList al')
+| dev_set_gained tl l al' y :              (* ... gained a member *)
+    In y al' -> set_mem y tl = false -> deviates (JList tl) true [] l (JList al')
+| dev_key_removed tk s ak k tv sk lk cfg :
+    dirs_of tk = Some (sk, lk, cfg) -> lookup k tk = Some tv -> specified_key lk k = true ->
+    deviates (JMap tk) s [SKey k] (JMap ak) (JMap (del_key k ak))
+| dev_key tk s ak k tv v v' p sk lk cfg :
+    dirs_of tk = Some (sk, lk, cfg) -> lookup k tk = Some tv -> specified_key lk k = true ->
+    lookup k cfg = None -> lookup k ak = Some v ->
+    deviates tv (mem_str k sk) p v v' ->
+    deviates (JMap tk) s (SKey k :: p) (JMap ak) (JMap (set_key k v' ak))
+| dev_key_as_map tk s ak k tv v v' p sk lk cfg fields T A A' :
+    dirs_of tk = Some (sk, lk, cfg) -> lookup k tk = Some tv -> specified_key lk k = true ->
+    lookup k cfg = Some fields -> lookup k ak = Some v ->
+    list_to_object tv fields = Ret T -> list_to_object v fields = Ret A ->
+    list_to_object v' fields = Ret A' ->
+    deviates T false p A A' ->
+    deviates (JMap tk) s (SKey k :: p) (JMap ak) (JMap (set_key k v' ak))
+| dev_idx tl al i t a a' p :
+    nth_error tl i = Some t -> nth_error al i = Some a ->
+    deviates t false p a a' ->
+    deviates (JList tl) false (SIdx i :: p) (JList al) (JList (list_set i a' al)).
+
+(* the paths the property quantifies over: through maps along specified keys
+   (never a directive key, an ownerReferences key or a key compared against
+   last-applied), through ordered lists by index, through compare-as-map
+   lists by the element's key *)
+Inductive specified_path : json -> bool -> list step -> Prop :=
+| sp_here t s : specified_path t s []
+| sp_key_here tk s k tv sk lk cfg :
+    dirs_of tk = Some (sk, lk, cfg) -> lookup k tk = Some tv -> specified_key lk k = true ->
+    specified_path (JMap tk) s [SKey k]
+| sp_key tk s k tv p sk lk cfg :
+    dirs_of tk = Some (sk, lk, cfg) -> lookup k tk = Some tv -> specified_key lk k = true ->
+    lookup k cfg = None -> specified_path tv (mem_str k sk) p ->
+    specified_path (JMap tk) s (SKey k :: p)
+| sp_key_as_map tk s k tv p sk lk cfg fields T :
+    dirs_of tk = Some (sk, lk, cfg) -> lookup k tk = Some tv -> specified_key lk k = true ->
+    lookup k cfg = Some fields -> list_to_object tv fields = Ret T ->
+    specified_path T false p ->
+    specified_path (JMap tk) s (SKey k :: p)
+| sp_idx tl i t p :
+    nth_error tl i = Some t -> specified_path t false p ->
+    specified_path (JList tl) false (SIdx i :: p).
